@@ -115,6 +115,9 @@ def cases(tier):
             out.append(("SCALAR-INFER-ASG %s %s" % (t, acc), "fn f(i: usize)\n{\n\tvar z = %s;\n\tz%s = %s;\n}\n" % ("true" if t == "bool" else "1" + t, acc, lit), None))
             out.append(("SCALAR-READ %s %s" % (t, acc), "fn f(i: usize)\n{\n\tvar z: %s = %s;\n\tvar r = z%s;\n}\n" % (t, lit, acc), None))
             out.append(("SCALAR-PTR-ASG %s %s" % (t, acc), "fn f(i: usize, z: &%s)\n{\n\tz%s = %s;\n}\n" % (t, acc, lit), None))
+        for acc in ("[2]", "[i]", ".m"):
+            out.append(("SCALAR-INFERRED-READ %s %s" % (t, acc), "fn f(i: usize)\n{\n\tvar a;\n\ta = %s;\n\ta = a%s;\n}\n" % ("true" if t == "bool" else "3" + t, acc), None))
+            out.append(("SCALAR-INFERRED-READ2 %s %s" % (t, acc), "fn f(i: usize)\n{\n\tvar a = %s;\n\tvar b;\n\tb = a%s;\n}\n" % ("true" if t == "bool" else "3" + t, acc), None))
         out.append(("SCALAR-OK %s" % t, "fn f(i: usize, z: &%s)\n{\n\tvar a: [3]%s;\n\ta[i] = %s;\n\tz = a[2];\n}\n" % (t, t, lit), "OK"))
     # the element of an array MEMBER is assigned a value of the element type only (directly, through a pointer to the
     # structure, through a nested structure)
